@@ -167,6 +167,9 @@ def r06_4(ctx):
         for e in p.events:
             if e.kind == "enter" and e.what.endswith("asyncio_timeout") and e.args[:1] != (tmo,):
                 bad = f"reply wait bounded by {e.args!r}, not EZSP_CMD_TIMEOUT"
+        if not bad and header_of(p) is not None and p.store["self"].get("_seq") != 8:
+            bad = (f"a request was built with sequence number 7 but the counter ends at {p.store['self'].get('_seq')!r} on this exit: the number must be "
+                   "consumed exactly once whatever the outcome (a reused number lets a late reply complete another call)")
         if bad:
             ctx.violation("command:slot", f"path [{pid}]: {bad}", func=f, trace=p.trace(40))
         else:
@@ -717,3 +720,33 @@ def r08_4(ctx):
             ctx.require(ok, f"receive-path-write:{tgt[1]}:{tgt[0]}", f"{f.short} (on the receive path) modifies self.{tgt[1]} ({tgt[0]}) at line {n.lineno}", func=f, node=n)
             n_ok += ok
     ctx.anchor(n_ok >= 1, "the receive path pops the matched pending entry")
+
+
+@rule("R06.9", ["C06", "C09"], "T-FUN", floor=2)
+def r06_9(ctx):
+    """EZSP._command resolves the command on the handler that is installed *now*: after the handler object has been
+    replaced (version switch, reset) the same command name is sent through the new handler, not through a
+    remembered one - a request registered in a discarded handler would never see its reply."""
+    repo = ctx.repo
+    f = repo.func("bellows.ezsp:EZSP._command")
+    ctx.fn(f)
+    ez = repo.cls("bellows.ezsp", "EZSP")
+    for ver_a, ver_b in ((8, 8), (4, 8), (8, 4)):
+        px = PX(repo, models=[("*.is_set", lambda px_, t, a, k, fr: True)], inline=same_class(stop=("handle_callback",)))
+        px.inline.root = f
+
+        def entry():
+            me = self_obj(ez, {"_protocol": Obj(TypeRef("Handler"), {}, tag="handlerA"), "_ezsp_version": ver_a})
+            px.top_frame = None
+            px.call_function(f, me, ["nop"], {}, None)
+            me.fields["_protocol"] = Obj(TypeRef("Handler"), {}, tag="handlerB")
+            me.fields["_ezsp_version"] = ver_b
+            px.call_function(f, me, ["nop"], {}, None)
+            return None
+
+        for p in px._run(entry):
+            aw = [e for e in p.events if e.kind == "await"]
+            got = [e.callee for e in aw]
+            ctx.require(p.terminal == "return" and got == ["handlerA.nop", "handlerB.nop"], f"current-handler:{ver_a}->{ver_b}",
+                        f"two nop commands around a handler replacement (version {ver_a} -> {ver_b}) are sent through {got}; the second must use the "
+                        "new handler", func=f, trace=p.trace(10))
